@@ -64,6 +64,32 @@ theorem stat_sum_append (xs ys : List Stat) : Stat.sum (xs ++ ys) = (Stat.sum xs
   | nil => rw [stat_sum_nil, stat_add_zero, List.append_nil]
   | append_singleton zs z ih => rw [← List.append_assoc, stat_sum_snoc, ih, stat_sum_snoc, stat_add_assoc]
 
+/-- the sum of a list read backwards is the same block -/
+theorem stat_sum_reverse (xs : List Stat) : Stat.sum xs.reverse = Stat.sum xs :=
+  stat_sum_perm (List.reverse_perm xs)
+
+/-- a one-element sum is that element -/
+theorem stat_sum_singleton (x : Stat) : Stat.sum [x] = x := by
+  have := stat_sum_snoc [] x
+  rw [List.nil_append, stat_sum_nil, stat_zero_add] at this
+  exact this
+
+/-- a new first element can be added first or last -/
+theorem stat_sum_cons (x : Stat) (xs : List Stat) : Stat.sum (x :: xs) = x.add (Stat.sum xs) := by
+  have := stat_sum_append [x] xs
+  rw [stat_sum_singleton] at this
+  exact this
+
+/-- a list of lists can be summed in one pass or group by group -/
+theorem stat_sum_flatten (xss : List (List Stat)) :
+    Stat.sum xss.flatten = Stat.sum (xss.map Stat.sum) := by
+  induction xss with
+  | nil => rfl
+  | cons xs xss ih => rw [List.flatten_cons, stat_sum_append, ih, List.map_cons, stat_sum_cons]
+
+/-- three blocks can be combined in any nesting and order -/
+theorem stat_add_left_comm (x y z : Stat) : x.add (y.add z) = y.add (x.add z) := by
+  rw [← stat_add_assoc, stat_add_comm x y, stat_add_assoc]
 /-- final damage combines multiplicatively -/
 theorem final_damage_multiplicative (a b : Stat) :
     1 + (a.add b).final_damage_multiplier / 100
